@@ -85,13 +85,18 @@ def run_property(pid, tier, seed, args):
     timeout = args.timeout or (30 if tier == 'quick' else 60)
     mods = [importlib.import_module(m) for m in spec['modules']]
     contracts, lemmas = [], []
+    seen_types = set()
     for m in mods:
         for c in m.registry():
+            if type(c).__name__ in seen_types:
+                continue
+            seen_types.add(type(c).__name__)
             contracts.append(c)
         lemmas += getattr(m, 'LEMMAS', [])
     registry = {}
     for c in contracts:
-        registry[c.fn] = c
+        if c.deductive:
+            registry[c.fn] = c
     mine = [c for c in contracts if pid in c.properties]
     for c in contracts:
         c.active_property = pid
@@ -115,6 +120,9 @@ def run_property(pid, tier, seed, args):
     undecided_fns = []
     for c in mine:
         t1 = time.time()
+        if not c.deductive:
+            reports.append({'contract': c, 'rep': None, 'error': None, 'gen_s': 0.0, 'bounded_only': True})
+            continue
         try:
             rep = verify_contract(c, registry)
         except OutOfSubset as e:
@@ -216,6 +224,12 @@ def run_property(pid, tier, seed, args):
             undecided.append(ob.name)
             log('UNDECIDED property=%s obligation=%s solver=%s' % (pid, ob.name, r.get('reason', r['status'])))
     # native failures that no obligation explains (runtime contract violated on a real input)
+    harness = [nf for nf in nat['failures'] if nf.get('clause') == 'harness-error']
+    if harness:
+        for nf in harness[:5]:
+            log('HARNESS-ERROR %s' % json.dumps(nf, default=str)[:400])
+        log('CHECK-ERROR property=%s native harness raised on %d inputs' % (pid, len(harness)))
+        return 3
     seen_nat = set()
     for nf in nat['failures']:
         kf = N.match_known_native(known, nf)
@@ -276,6 +290,8 @@ def run_property(pid, tier, seed, args):
             all_notes |= rep.notes
         if rp['error']:
             ent['error'] = rp['error']
+        if rp.get('bounded_only'):
+            ent['bounded_only'] = 'no deductive obligations: ' + c.reason
         fns.append(ent)
     sample_idx = [i for i, ob in enumerate(obligations) if ob.kind in ('post', 'lemma')][:3]
     samples = []
